@@ -17,6 +17,8 @@ for i, spec in enumerate(sys.argv[3:]):
     prog, func, args = parts[0], parts[1], [int(x) for x in parts[2].split(',') if x != '']
     need.add(prog)
     j = {'name': '%d-%s' % (i, spec), 'pkg': 'scratch/' + prog, 'func': func, 'args': args, 'opt': {'max_wall_s': maxwall, 'max_steps': int(os.environ.get('VERIF_MAXSTEPS', '5000000'))}}
+    if os.environ.get('VERIF_MAXALLOC'):
+        j['opt']['max_alloc'] = int(os.environ['VERIF_MAXALLOC'])
     if len(parts) > 3 and parts[3] == 'nostats':
         j['opt']['stub'] = ['(*scratch/%s.stringStats).add' % prog, '(*scratch/%s.stringOptionalStats).add' % prog]
     if len(parts) > 3 and parts[3] == 'modeb':
